@@ -895,10 +895,18 @@ def gen_C07(rng, count, tier):
         yield ("fs", "root:%s %s%s" % (hx(root_spelling(rng).encode()), warm, fs_events(("GET %s HTTP/1.1\r\n\r\n" % t).encode())))
 
 
+def empty_range_requests():
+    return [("GET /%s HTTP/1.1\r\nRange: %s\r\n\r\n" % (name, spec)).encode()
+            for name in ("in.txt", "empty.txt") for spec in ("bytes=", "bytes=,", "bytes=,,,", "bytes= , ,", "bytes=,0-1", "bytes= ")]
+
+
 def gen_C08(rng, count, tier):
     # over real sockets: a client that half-closes right behind its request (files that fit in one copy block)
     yield ("tls", "plain halfclose root:%s" % hx(FSROOT.encode()))
     files = [("in.txt", 40), ("sub/deep.txt", 31), ("big.bin", 70000), ("empty.txt", 0), ("edge.bin", 65536), ("a%26b%3Cc%3E.txt", 12)]
+    # range sets without any element, in every run
+    for req in empty_range_requests():
+        yield ("fs", "root:%s %s" % (hx(FSROOT.encode()), fs_events(req)))
     for i in range(count):
         if rng.random() < 0.04:
             # the same handler object served the same path before, when the file had another size (and the same
@@ -1317,6 +1325,9 @@ def gen_C11(rng, count, tier):
             if lang == "proxy" and rng.random() < 0.4:
                 toks += " peerclose turn"        # the client leaves once everything has settled
             yield (lang, toks)
+    # inputs at the edge of the other components' domains, in every run
+    for req in empty_range_requests():
+        yield ("fs", "root:%s %s" % (hx(FSROOT.encode()), fs_events(req)))
     for _ in range(per):
         # arbitrary bytes from the upstream server
         head, body = proxy_request(rng, with_body=False)
